@@ -246,7 +246,11 @@ def to_py(v):
     if isinstance(v, tuple):
         return [to_py(x) for x in v]
     if isinstance(v, frozenset):
-        return sorted((to_py(x) for x in v), key=repr)
+        items = [to_py(x) for x in v]
+        try:
+            return sorted(items)  # natural order (numbers numerically, lists lexicographically)
+        except TypeError:
+            return sorted(items, key=repr)
     if isinstance(v, MV):
         return str(v)
     return v
